@@ -85,6 +85,29 @@ func init() {
 					b = append(b, make([]byte, t-len(b))...)
 				}
 			}
+		case "csum":
+			// repair: the 16-bit field at Off becomes the Internet checksum of the N>>1 bytes
+			// from Val (N>>1 == 0: up to the end of the frame), so that damage made before
+			// this operator gets past a decoder that verifies the checksum first
+			start, end := int(op.Val), int(op.Val)+op.N>>1
+			if op.N>>1 == 0 || end > len(b) {
+				end = len(b)
+			}
+			if off >= start && off+2 <= end && start >= 0 {
+				b[off], b[off+1] = 0, 0
+				var s uint32
+				for i := start; i < end; i++ {
+					if (i-start)%2 == 0 {
+						s += uint32(b[i]) << 8
+					} else {
+						s += uint32(b[i])
+					}
+				}
+				for s>>16 != 0 {
+					s = s&0xffff + s>>16
+				}
+				binary.BigEndian.PutUint16(b[off:], ^uint16(s))
+			}
 		case "zero":
 			n := op.N >> 1
 			for i := off; i >= 0 && i < len(b) && i < off+n; i++ {
@@ -101,6 +124,26 @@ func init() {
 		}
 		return b
 	}
+}
+
+// sumRepairs returns one "csum" operator per checksum the corpus marked in the frame (inner
+// checksums first: an extension structure's before the message's that contains it). toEnd
+// makes each cover everything up to the end of the damaged frame instead of its original
+// size (what a decoder sees that takes "the rest of the packet").
+func sumRepairs(marks []hlib.Mark, toEnd bool) []FaultOp {
+	var ops []FaultOp
+	// marks are recorded when a checksum is written, i.e. inner structures first
+	for i := range marks {
+		start, n, ok := hlib.SumMark(marks[i])
+		if !ok || start < 0 {
+			continue
+		}
+		if toEnd {
+			n = 0
+		}
+		ops = append(ops, FaultOp{Op: "csum", Off: marks[i].Off, Val: uint64(start), N: n << 1})
+	}
+	return ops
 }
 
 // interesting replacement values for a field of the given width holding cur; total is the size of
